@@ -126,6 +126,12 @@ CLAIMED = {
         "note": "Ordering/disjointness of the cols vector is not decided (C27). " + TRUST,
         "technique": "reaching-definition provenance of aggregate fields and in-place field stores",
     },
+    "C18": {
+        "level": "Static decision of reader/writer configuration agreement: per value kind (boolean, error, number) the Language/Locale "
+                 "tables consulted when displaying are consulted when recognising typed input; quote-prefix read/set agreement.",
+        "note": "That the recognisers invert the printers on every string/number is not decided (see C19). " + TRUST,
+        "technique": "transitive field-read sets over the call graph compared between sibling code paths",
+    },
     "C21": {
         "level": "Static decision of the correspondence: both conversions are translations; literals read from MIR satisfy "
                  "EXCEL_DATE_BASE = ordinal(base date) - k; identical bounds mapping to 1899-12-31 and 9999-12-31; every "
